@@ -113,6 +113,19 @@ def explore_pair(progA, progB, d, N, start, *, partial=False, budget=None, relea
         out['leaves'] += 1
         k = a[0][0] if isinstance(a[0], tuple) else a[0]
         out['kinds'][k] = out['kinds'].get(k, 0) + 1
+        def coalesce(t):
+            # how a skipped stretch is cut into pieces is not observable (results, spans, callbacks are): adjacent skip
+            # regions are merged before the comparison
+            if len(t) < 5 or not isinstance(t[3], tuple):
+                return t
+            m = []
+            for s_, e_ in t[3]:
+                if m and m[-1][1] == s_:
+                    m[-1] = (m[-1][0], e_)
+                else:
+                    m.append((s_, e_))
+            return t[:3] + (tuple(m),) + t[4:]
+        a, b = coalesce(a), coalesce(b)
         if a[:5] != b[:5]:
             if len(out['failures']) < 10:
                 out['failures'].append({'what': f'generators disagree: tail-call {a[:5]} vs state-machine {b[:5]}',
